@@ -120,7 +120,8 @@ def gen_case(tape, tier):
             ntag += 1
             ops.append({"op": "replace", "fn": tape.pick(fnames, "fn"), "tag": f"'{ntag}"})
         else:
-            ops.append({"op": "map", "values": {r: tape.choose(2, "value") for r, d in w["inputs"].items() if d["kind"] == "scalar"}})
+            ops.append({"op": "map", "values": {r: tape.choose(2, "value") for r, d in w["inputs"].items() if d["kind"] == "scalar"},
+                        "entry": tape.pick(["map", "map", "map_async"], "map-entry"), "again": tape.pick(["map", "map_async"], "again")})
     if tape.coin(0.3, "mutation-scenario"):
         # directed histories: the same call before and after each of two updates of ONE parameter of a function the call
         # depends on (second value possibly almost equal to the first), optionally with the cache files gone in between
@@ -152,6 +153,7 @@ def gen_case(tape, tier):
     array_roots = [r for r in roots if tape.coin(0.2, "array-root")]
     # roots whose two values are NaN and a number, marked by a prefix so that every value lookup knows
     array_roots += ["nan:" + r for r in roots if r not in array_roots and tape.coin(0.12, "nan-root")]
+    array_roots += ["od:" + r for r in roots if r not in array_roots and "nan:" + r not in array_roots and tape.coin(0.1, "odict-root")]
     case = {"part": "A", "workload": w, "cached": cached, "cache": cache, "ops": ops, "array_roots": array_roots}
     if ((ctype in ("lru", "hybrid") and cache["shared"]) or (ctype == "disk" and (cache["shared"] or not cache["with_lru"]))) \
             and tape.coin(0.25, "pipeline-roundtrip"):
@@ -269,6 +271,11 @@ def capacity(cache):
 def _val(name, i, array_roots=()):
     if "nan:" + name in array_roots and i < 2:
         return float("nan") if i == 0 else 1.5
+    if "od:" + name in array_roots and i < 2:
+        import collections
+
+        items = [("a", 1), ("b", 2)]  # the same items in two orders: two different OrderedDicts
+        return collections.OrderedDict(items if i == 0 else items[::-1])
     if name in array_roots and i < 2:
         # array-valued root argument: a square array and its transposed (non-contiguous) view - same shape and
         # dtype, different values, identical memory
@@ -521,9 +528,36 @@ def run_A(case, tape, clear_on_mutation=False):
                         exp = {o: canon(exp[o].output) for o in all_outputs(w)}
                     except Exception:  # noqa: BLE001
                         continue
+                    def do_map(entry):
+                        if entry == "map":
+                            return cached.map(inputs, parallel=False, storage="dict")
+                        from sim.loop import run_async
+
+                        ex = C.SimExecutor(sim, mode="thread", workers=1)
+
+                        async def co():
+                            return await cached.map_async(inputs, executor=ex, storage="dict").task
+
+                        return run_async(sim.kernel, co)[0]
+
+                    entry = op2.get("entry", "map")
+                    if entry != "map" and case["cache"]["type"] not in ("simple",) and not case["cache"].get("shared"):
+                        entry = "map"  # (a pool needs a cache that can be shared)
                     try:
-                        got = cached.map(inputs, parallel=False, storage="dict")
+                        n_before = len(sim.calls)
+                        got = do_map(entry)
                         got = {o: canon(got[o].output) for o in all_outputs(w)}
+                        if case["cache"]["type"] == "simple" and not viol:
+                            # an unbounded cache: every entry of the map just made is resident, so the same map again -
+                            # through either entry point - executes no cached function
+                            n_mid = len(sim.calls)
+                            do_map("map" if entry != "map" else op2.get("again", "map"))
+                            redone = [c for c in sim.calls[n_mid:] if c.fn in case["cached"]]
+                            probes["map_repeated"] = probes.get("map_repeated", 0) + 1
+                            if redone and n_mid > n_before:
+                                V("no-reexecution", "repeated-map-recomputed-resident-entries",
+                                  {"step": i, "entry": entry, "calls": [repr(c) for c in redone][:3]}, {"cache_type": "simple"})
+                                return
                     except (Deadlock, StepCap):
                         raise
                     except Exception as e:  # noqa: BLE001
